@@ -182,8 +182,12 @@ func contains(xs []string, s string) bool {
 	return false
 }
 
-func genWS(r *rand.Rand, maxFrames int) string {
+func genWS(r *rand.Rand, maxFrames int, sseAccept bool) string {
 	cs, ss := r.Intn(2) == 0, r.Intn(4) > 0
+	if sseAccept {
+		// a handshake that binds the response transcoder as SSE: server-streaming, not client-streaming, no marshaler named in Accept
+		cs, ss = false, true
+	}
 	body := r.Intn(4) > 0
 	if cs {
 		body = r.Intn(8) > 0
@@ -191,6 +195,15 @@ func genWS(r *rand.Rand, maxFrames int) string {
 	// request codec × response codec, chosen through Content-Type × Accept; a single letter sends
 	// no Accept header (response falls back to the request marshaler)
 	codec := common.Pick(r, []string{"j", "j", "j", "b", "jj", "bb", "jb", "jb", "bj", "bj"})
+	// one more Accept value on the handshake which matches no marshaler: SSE (binds the transcoder as SSE for a server-streaming,
+	// non-client-streaming method, is refused with 400 otherwise), */*, a quality list, upper case
+	variant := ""
+	if r.Intn(3) == 0 {
+		variant = common.Pick(r, []string{"e", "e", "e", "s", "q", "E"})
+	}
+	if sseAccept {
+		codec, variant = common.Pick(r, []string{"j", "j", "b"}), "e"
+	}
 	expectBinary := codec[0] == 'b'
 	nf := r.Intn(maxFrames + 1)
 	var frames []string
@@ -256,6 +269,10 @@ func genWS(r *rand.Rand, maxFrames int) string {
 		resp = nil
 	}
 	gap := common.Pick(r, []int{0, 0, 0, 100, 500, 2000})
+	if variant != "" {
+		note(fmt.Sprintf("ws accept-variant=%s cs=%v ss=%v", variant, cs, ss))
+		codec += "~" + variant
+	}
 	note(fmt.Sprintf("ws cs=%v ss=%v body=%v codec=%s terminal=%v close=%s", cs, ss, body, codec, terminal, closeMode))
 	return fmt.Sprintf("ws %s %s %s %s %s %s %s %d %s %d", b01(cs), b01(ss), b01(body), codec, joinList(frames), hexTexts(resp), end, gap, closeMode, readN)
 }
@@ -338,6 +355,6 @@ func (Area) Gen(r *rand.Rand, tier string, emit func(string)) {
 		emit(genHTTP(r, maxMsgs))
 	}
 	for i := 0; i < nWS; i++ {
-		emit(genWS(r, maxFrames))
+		emit(genWS(r, maxFrames, i%5 == 4))
 	}
 }
